@@ -636,6 +636,12 @@ func genArchive(c *ctx) {
 				if rest := stream[len(c15Concat(seen)):]; len(rest) > 0 {
 					full = append(append([][]byte(nil), seen...), rest)
 				}
+				if refused := c15RefusedNames(nodes); refused != "" {
+					// the stream is fine: the writer refuses an entry because of its name
+					c15ViolateCapped(c, 3, "entry-name-refused:"+refused, "the archive writer refuses an entry whose name is a valid single path element",
+						fmt.Sprintf("%s tree=%s got=%s", key, c15DescNodes(nodes), res))
+					break
+				}
 				c.violate(c15TreeKey(tmp, &seq, rootSrc, full, "ok|"+want, mode), "the tree written from the archive stream differs from the source tree",
 					fmt.Sprintf("%s mode=%d table=%s segs=%s got=%s want=%s", key, mode, tbl, hxs(seen), res, want))
 			}
@@ -793,7 +799,11 @@ func genArchive(c *ctx) {
 				res := c15Write(tmp, &seq, rootSrc, gsegs, nil)
 				if want := "ok|" + c15CanonNodes(nodes); end != "eof" || res != want {
 					gkey := "grow-shifts"
-					if strings.HasPrefix(res, "nowriter") {
+					if refused := c15RefusedNames(nodes); refused != "" {
+						c15ViolateCapped(c, 3, "entry-name-refused:"+refused, "the archive writer refuses an entry whose name is a valid single path element",
+							fmt.Sprintf("tree=%s got=%s", c15DescNodes(nodes), res))
+						return
+					} else if strings.HasPrefix(res, "nowriter") {
 						gkey = "mode-disagree:" + c15Shape(nodes) // not about the growth: the receiver opened no archive writer
 					} else if end == "eof" && c15TreeKey(tmp, &seq, rootSrc, gsegs, want, c15Reused) != "roundtrip-tree" {
 						gkey = "roundtrip-tree:reused-buffer" // the reader was fine; the writer kept the caller's slice
@@ -1488,7 +1498,7 @@ func c15NamesTie(c *ctx) {
 			}
 			// direct oracle: a name is refused iff it is empty, ".", ".." or contains the BYTE '/'
 			want := name != "" && name != "." && name != ".." && !strings.Contains(name, "/")
-			if ok != want && reported < 12 {
+			if ok != want && reported < 4 {
 				reported++
 				var us []string
 				for _, cp := range cps {
@@ -1567,7 +1577,7 @@ func c15CompRes(comp, sent bool, errText string) string {
 
 // c15TreeOfStream builds a tree whose archive stream has exactly total bytes (headers included)
 func c15TreeOfStream(_ *ctx, root string, total int, rng *rand.Rand) ([]c15Node, bool) {
-	nodes := []c15Node{{rel: []string{"d"}, dir: true}, {rel: []string{"d", "empty"}}, {rel: []string{"香港"}, dir: true}}
+	nodes := []c15Node{{rel: []string{"d"}, dir: true}, {rel: []string{"d", "empty"}}, {rel: []string{"中文"}, dir: true}}
 	rest := total - 600
 	for i := 0; rest > 2000 && i < 3; i++ {
 		n := rest / (4 - i)
@@ -1821,4 +1831,32 @@ func c15DescNodes(nodes []c15Node) string {
 		}
 	}
 	return "[" + strings.Join(parts, " ") + "]"
+}
+
+// c15RefusedNames: the code points of the first path element of the tree that the real checkFileName refuses ("" = none)
+func c15RefusedNames(nodes []c15Node) string {
+	for _, n := range nodes {
+		for _, el := range n.rel {
+			if !trzsz.VerifArchiveCheckName(el) {
+				var us []string
+				for _, r := range el {
+					us = append(us, fmt.Sprintf("U+%04X", r))
+				}
+				return strings.Join(us, "+")
+			}
+		}
+	}
+	return ""
+}
+
+var c15FamilyCount = map[string]int{}
+
+// c15ViolateCapped reports at most n violations per key family (the part of the key before the first ':')
+func c15ViolateCapped(c *ctx, n int, key, what, detail string) {
+	fam := strings.SplitN(key, ":", 2)[0]
+	if c15FamilyCount[fam] >= n {
+		return
+	}
+	c15FamilyCount[fam]++
+	c.violate(key, what, detail)
 }
